@@ -10,6 +10,7 @@
 //              big      (abandoned: more than 20000 instructions started or events delivered)
 //   walk <id> <hex stylesheet xml> <hex document xml> W ...   same as xslt (the model side replays the
 //       instruction tree on the Walker model; the TraceListener sequence is what is compared)
+//   core <id> <hex stylesheet xml> <hex document xml> D ...   same as xslt (the model side runs the Core engine model)
 //   pend <id> <hex stylesheet xml> <hex document xml> Q <engine calls>   same as xslt (the model side replays
 //       the call sequence on the pending-start-tag model)
 //   vars <ops...>   replays a VariablesStack operation log on the real class (see c01.py)
@@ -17,6 +18,8 @@
 #include <xalanc/Include/PlatformDefinitions.hpp>
 #include <xercesc/util/PlatformUtils.hpp>
 #include <xercesc/sax/AttributeList.hpp>
+#include <xercesc/sax/EntityResolver.hpp>
+#include <xercesc/framework/MemBufInputSource.hpp>
 #include <xalanc/XalanTransformer/XalanTransformer.hpp>
 #include <xalanc/XSLT/XSLTInputSource.hpp>
 #include <xalanc/XSLT/XSLTResultTarget.hpp>
@@ -128,14 +131,39 @@ public:
     virtual void generated(const GenerateEvent&) {}
 };
 
+// imported stylesheet modules are served from memory: file:///c01/i<k>.xsl = the k-th extra module of the request
+class MemResolver : public xercesc::EntityResolver
+{
+public:
+    std::vector<std::string> mods;
+    virtual xercesc::InputSource* resolveEntity(const XMLCh* const, const XMLCh* const systemId)
+    {
+        const std::string sid = utf8(reinterpret_cast<const XalanDOMChar*>(systemId));
+        for (size_t k = 1; k < mods.size(); ++k)
+        {
+            const std::string name = "i" + std::to_string(k) + ".xsl";
+            if (sid.size() >= name.size() && sid.compare(sid.size() - name.size(), name.size(), name) == 0)
+                return new xercesc::MemBufInputSource(reinterpret_cast<const XMLByte*>(mods[k].data()), mods[k].size(), systemId, false);
+        }
+        return 0;
+    }
+};
+
 static std::string runXslt(const std::vector<std::string>& w)
 {
     if (w.size() < 4) return "err bad-request";
-    const std::string xsl = unhex(w[2]);
+    MemResolver resolver;
+    {
+        std::stringstream ss(w[2]); std::string item;
+        while (std::getline(ss, item, ',')) resolver.mods.push_back(unhex(item));
+    }
+    if (resolver.mods.empty()) return "err bad-request";
+    const std::string xsl = resolver.mods[0];
     const std::string xml = unhex(w[3]);
     XalanTransformer t;
     RecordingTrace tr;
     t.addTraceListener(&tr);
+    if (resolver.mods.size() > 1) t.setEntityResolver(&resolver);
     std::istringstream xslS(xsl), xmlS(xml);
     XSLTInputSource xslIn(xslS), xmlIn(xmlS);
     xslIn.setSystemId(XalanDOMString("file:///c01/s.xsl").c_str());
@@ -160,6 +188,7 @@ static std::string runXslt(const std::vector<std::string>& w)
 }
 
 // ---- VariablesStack op log -------------------------------------------------------------
+//   mode <0|1>    (model only: findEntry without / with in-place activation) -> "ok"
 //   cm            pushContextMarker            -> "ok"
 //   pcm           popContextMarker             -> "ok"
 //   ef <e>        pushElementFrame(elem e)     -> "ok"
@@ -194,7 +223,8 @@ static std::string runVars(const std::vector<std::string>& w)
         std::string r = "ok";
         try
         {
-            if (op == "cm") { vs.pushContextMarker(); i += 1; }
+            if (op == "mode") { i += 2; }   // which findEntry the model should use (chosen by the check's probe); nothing to do here
+            else if (op == "cm") { vs.pushContextMarker(); i += 1; }
             else if (op == "pcm") { vs.popContextMarker(); i += 1; }
             else if (op == "ef") { vs.pushElementFrame(reinterpret_cast<const ElemTemplateElement*>(&elems[nat(w[i + 1]) % 64])); i += 2; }
             else if (op == "pef") { i += 1; vs.popElementFrame(); }
@@ -268,11 +298,11 @@ int main()
             {
                 std::istringstream ss(line); std::string t;
                 // only the first four words matter for xslt (the rest is the model's form of the same case)
-                while (ss >> t) { w.push_back(t); if ((w[0] == "xslt" || w[0] == "walk" || w[0] == "pend") && w.size() >= 4) break; }
+                while (ss >> t) { w.push_back(t); if ((w[0] == "xslt" || w[0] == "walk" || w[0] == "pend" || w[0] == "core") && w.size() >= 4) break; }
             }
             std::string reply;
             if (w.empty()) reply = "bad";
-            else if (w[0] == "xslt" || w[0] == "walk" || w[0] == "pend") reply = runXslt(w);
+            else if (w[0] == "xslt" || w[0] == "walk" || w[0] == "pend" || w[0] == "core") reply = runXslt(w);
             else if (w[0] == "vars") reply = runVars(w);
             else reply = "bad";
             std::cout << reply << "\n";
